@@ -321,6 +321,8 @@ def run(res, tier):
     sub = dict((k, v) for k, v in reach.items() if k in fx.funcs and TAINT_FILES.search(fx.funcs[k].file))
     nloops, ndec = progress_rule(res, fx, cg, sub, rule='PROGRESS')
     S.sticky_rule(res, fx, 'STICKY')
+    from . import micro
+    micro.run(res, fx)          # the C micro codec reads in place: decided by a pointer-validity typestate, not by the taint rule (rules/micro.py)
     res.extra['entries'] = PARSE_ENTRIES
     res.extra['entries_missing'] = missing
     res.explanation = ('Static decision of the structural part of C02 on the current sources. TAINT: every value decoded from received bytes (DataUnflattener reads, EndianConverter::Import, '
@@ -332,6 +334,6 @@ def run(res, tier):
     res.assumptions = ['DataIO::Read never writes more than it is asked to; libc and zlib are correct',
                        'a comparison against an untainted quantity is a meaningful bound (the analysis does not compute buffer sizes)',
                        'analysed configuration: gnu++11, MUSCLE_ENABLE_ZLIB_ENCODING, NDEBUG, little-endian host']
-    res.not_decided = ['MicroMessage.c in-place reader: its compute-pointer-then-validate idiom needs pointer-range reasoning; listed, not judged',
+    res.not_decided = ['MicroMessage.c: the count-down walker inside GetNumItemsInField (remaining-bytes counter kept in step with the cursor) and the writer side are not judged',
                        'WebSocketMessageIOGateway header state machine indexes (_headerBytes[state]) are state-indexed, not wire-indexed: not judged',
                        'zlib inflate internals; time complexity beyond loop progress']
